@@ -277,8 +277,12 @@ class Function:
             return None
         n = self.nodes[c]
         n = strip_parens(n)
-        # the value of `a && b` at the point the if-terminator is reached equals b
+        # the value of `a && b` at the point the if-terminator is reached equals b -- unless the block
+        # is the join of the short-circuit edges (loops: the && node itself is an element of the
+        # block and its value, not the last operand's, is what the terminator tests)
         while n.k == "BinaryOperator" and n.op in ("&&", "||"):
+            if n.id in b["elems"] and not (b.get("termk") == "BinaryOperator" and self.nodes[b["term"]] is n):
+                return n
             if b.get("termk") == "BinaryOperator" and self.nodes[b["term"]] is n:
                 n = strip_parens(n.kids[0])
             else:
